@@ -280,6 +280,22 @@ theorem pool_no_reset_counterexample :
 theorem userfn_pool_stale_independent (stale : LazyObj) (args : List Stage) (body : Stage) (ctx : Ctx) :
     (evalArgsPooled stale args body ctx).1 = (withArgs args body).run ctx := rfl
 
+/-- **Duplicate names and names of builtins: the last definition wins.**  After loading, a name defined several
+    times (or naming a builtin) means its LAST accepted definition; every other name is untouched by it. -/
+theorem loader_last_wins (reg : Registry) (fs : List (List Char × Builder)) (n : List Char) (b : Builder) :
+    withFuncs reg (fs ++ [(n, b)]) n = some b ∧
+      ∀ m, m ≠ n → withFuncs reg (fs ++ [(n, b)]) m = withFuncs reg fs m := by
+  simp only [withFuncs, List.foldl_append, List.foldl_cons, List.foldl_nil, extend]
+  exact ⟨by simp, fun m hm => by simp [hm]⟩
+
+/-- File shapes: CRLF line ends, a last line without newline, a continuation on the last line (joined with
+    nothing after it), a lone `\` line – the phrases of `f {0}\r\n`, `g x\` + CRLF + ` y` (no final newline) and of
+    `h 1\` at the very end. -/
+example : joinPhrases (scanLines [102, 32, 123, 48, 125, 13, 10, 103, 32, 120, 92, 13, 10, 32, 121]) []
+      = [[102, 32, 123, 48, 125], [103, 32, 120, 121]] ∧
+    joinPhrases (scanLines [104, 32, 49, 92]) [] = [[104, 32, 49]] ∧
+    joinPhrases (scanLines [92, 10, 104, 32, 49, 10, 92]) [] = [[104, 32, 49]] := by decide
+
 /-- Non-vacuity: a definitions file with a comment, a continuation with an interleaved comment, and
     a blank line yields the two expected phrases. -/
 example : joinPhrases (scanLines [102, 32, 120, 92, 10, 35, 99, 10, 32, 121, 32, 35, 122, 10, 10, 103, 32, 49, 10]) []
